@@ -82,6 +82,17 @@ func c06(r *hx.Run) {
 					}
 				}
 				got := projectHist(ResolveImpl(client, pool.Suffix, placed, document.WithVersionTime(ts)))
+				if len(placed) > 1 {
+					rev := make([]fx.Placed, len(placed))
+					for ri := range placed {
+						rev[len(placed)-1-ri] = placed[ri]
+					}
+					if gotRev := projectHist(ResolveImpl(client, pool.Suffix, rev, document.WithVersionTime(ts))); gotRev != got {
+						r.Violation("version-time-store-order:"+diffFields(gotRev.R, got.R), caseID+"|reversed",
+							fmt.Sprintf("history %v at T=%d depends on the store order\n  in order: %s\n  reversed: %s", placedDesc(placed), T, got.R, gotRev.R), nil)
+					}
+					r.Eval()
+				}
 				var want histResult
 				if len(kept) == 0 {
 					want = histResult{R: Result{Err: true}}
@@ -146,6 +157,16 @@ func c06(r *hx.Run) {
 					}
 				}
 				got := projectHist(ResolveImpl(client, pool.Suffix, placed, document.WithVersionID(V)))
+				// the store may return operations in any order: reversed order must give the same historical view
+				rev := make([]fx.Placed, len(placed))
+				for ri := range placed {
+					rev[len(placed)-1-ri] = placed[ri]
+				}
+				if gotRev := projectHist(ResolveImpl(client, pool.Suffix, rev, document.WithVersionID(V))); gotRev != got {
+					r.Violation("version-id-store-order:"+diffFields(gotRev.R, got.R), caseID+"|reversed",
+						fmt.Sprintf("history %v at versionId %s depends on the store order\n  in order: %s\n  reversed: %s", placedDesc(placed), V, got.R, gotRev.R), nil)
+				}
+				r.Eval()
 				var want histResult
 				if !found {
 					want = histResult{R: Result{Err: true}}
